@@ -1,7 +1,471 @@
-//! C06 — not built yet.
-use crate::report::Tier;
+//! C06 — a crash at any point loses at most the unsynced tail and never corrupts.
+//! Fault enumeration over a recorded byte timeline: one instrumented run per history records,
+//! after every step, the full content of the WAL directory, the fsync coverage of every file
+//! (from the `wal.sync` hook events) and the reference state; crash images are then
+//! materialised (per-file prefixes between synced and written length, old/new/torn checkpoint
+//! metadata, single-bit flips), reopened with the real engine, judged, and continued.
 
-pub fn run(_tier: Tier, _seed: u64) -> ! {
-    println!("INCONCLUSIVE property=C06 reason=monitor not built yet");
-    std::process::exit(2)
+use crate::c05::{self, Logged, MOp, Rec, Rules, StepKind};
+use crate::hooks;
+use crate::model::Model;
+use crate::report::{Report, Tier};
+use crate::rng::{Rng, hash_str};
+use crate::util::scratch_dir;
+use serde_json::json;
+use std::collections::{BTreeMap, BTreeSet};
+use std::path::Path;
+use std::sync::atomic::Ordering;
+
+/// One record as it sits in a log file.
+#[derive(Clone, Debug)]
+struct RecAt {
+    file: u64,
+    start: u64,
+    end: u64,
+    rec: Rec,
+}
+
+#[derive(Clone)]
+struct Instant {
+    /// file name -> bytes (whole wal directory, after flushing the writer's buffer)
+    dir: BTreeMap<String, Vec<u8>>,
+    /// file sequence -> length covered by an fsync so far
+    synced: BTreeMap<u64, u64>,
+    /// spec state after this step
+    spec: Model,
+    /// index of the last step (<= this) that was a successful sync / checkpoint / close
+    durable_step: usize,
+    /// records written so far
+    n_recs: usize,
+    what: String,
+}
+
+fn read_dir(p: &Path) -> BTreeMap<String, Vec<u8>> {
+    let mut m = BTreeMap::new();
+    if let Ok(rd) = std::fs::read_dir(p) {
+        for e in rd.flatten() {
+            if e.path().is_file() {
+                if let Ok(b) = std::fs::read(e.path()) {
+                    m.insert(e.file_name().to_string_lossy().to_string(), b);
+                }
+            }
+        }
+    }
+    m
+}
+
+fn seq_of(name: &str) -> Option<u64> {
+    name.strip_prefix("wal_").and_then(|s| s.strip_suffix(".log")).and_then(|s| s.parse().ok())
+}
+
+struct Recorded {
+    instants: Vec<Instant>,
+    recs: Vec<RecAt>,
+    hist: Vec<String>,
+    mode: grafeo_engine::config::DurabilityMode,
+}
+
+/// Run one history and record the timeline.
+fn record(seed: u64, case: u64, steps: usize) -> Option<Recorded> {
+    let mut r = Rng::new(seed, "C06", case);
+    let base = scratch_dir("c06rec");
+    let path = base.join("db");
+    let mode = c05::pick_mode(&mut r);
+    let tiny = r.chance(0.3);
+    hooks::WAL_MAX_LOG_SIZE.store(if tiny { *r.pick(&[64u64, 200, 600]) } else { 0 }, Ordering::SeqCst);
+    hooks::RECORD_EVENTS.store(true, Ordering::SeqCst);
+    hooks::take_events();
+    let db = c05::open(&path, mode.clone()).ok()?;
+    let wal_dir = path.join("wal");
+    let mut m = Model::default();
+    let mut events: Vec<Logged> = Vec::new();
+    let mut recs: Vec<RecAt> = Vec::new();
+    let mut synced: BTreeMap<u64, u64> = BTreeMap::new();
+    let mut instants: Vec<Instant> = Vec::new();
+    let mut hist = vec![format!("mode={} tiny_log={tiny}", c05::mode_name(&mode))];
+    let mut kinds = BTreeSet::new();
+    let mut durable_step = 0usize;
+    // step 0: freshly opened, empty
+    instants.push(Instant { dir: read_dir(&wal_dir), synced: synced.clone(), spec: Model::default(), durable_step: 0, n_recs: 0, what: "open".into() });
+    let mut ok = true;
+    for step in 1..=steps {
+        let mut pushed: Vec<(MOp, u8)> = Vec::new();
+        let last = step == steps;
+        let roll = r.below(20);
+        let (kind, durable_call) = if last && r.chance(0.5) {
+            let _ = db.close();
+            hist.push("close()".into());
+            (StepKind::Close, true)
+        } else if roll == 0 {
+            let _ = db.wal_checkpoint();
+            hist.push("wal_checkpoint()".into());
+            (StepKind::Checkpoint, true)
+        } else if roll == 1 {
+            if let Some(w) = db.wal() {
+                let _ = w.rotate();
+            }
+            hist.push("wal.rotate()".into());
+            (StepKind::Other, false)
+        } else if roll <= 3 {
+            if let Some(w) = db.wal() {
+                let _ = w.sync();
+            }
+            hist.push("wal.sync()".into());
+            (StepKind::Other, true)
+        } else {
+            c05::mutate_opt(&db, &mut m, &mut pushed, &mut r, &mut hist, &mut kinds, true);
+            (StepKind::Mutation, false)
+        };
+        if let Some(w) = db.wal() {
+            let _ = w.flush();
+        }
+        let evs = hooks::take_events();
+        // byte ranges of the records of this step: wal.record events carry (file, size after)
+        let before = events.len();
+        if !c05::absorb(&mut events, pushed, &evs, kind) {
+            ok = false;
+            break;
+        }
+        let mut new_logged = events[before..].iter().filter(|e| match e {
+            Logged::Op { logged, .. } => *logged,
+            Logged::Commit | Logged::CkptRec => true,
+            _ => false,
+        });
+        for e in &evs {
+            match e.0 {
+                "wal.record" => {
+                    let (file, end) = (e.1, e.2);
+                    let start = recs.iter().rev().find(|x| x.file == file).map_or_else(
+                        || {
+                            // first record of this file in this run: the file may have held bytes
+                            // before (never in a single-open history)
+                            0
+                        },
+                        |x| x.end,
+                    );
+                    let rec = match new_logged.next() {
+                        Some(Logged::Op { op, .. }) => Rec::Op(op.clone()),
+                        Some(Logged::Commit) => Rec::Commit,
+                        Some(Logged::CkptRec) => Rec::Checkpoint,
+                        _ => {
+                            ok = false;
+                            break;
+                        }
+                    };
+                    recs.push(RecAt { file, start, end, rec });
+                }
+                "wal.sync" => {
+                    let cur = synced.entry(e.1).or_insert(0);
+                    *cur = (*cur).max(e.2);
+                }
+                _ => {}
+            }
+        }
+        if !ok {
+            break;
+        }
+        if durable_call {
+            durable_step = step;
+        }
+        instants.push(Instant {
+            dir: read_dir(&wal_dir),
+            synced: synced.clone(),
+            spec: c05::predict_spec(&events),
+            durable_step,
+            n_recs: recs.len(),
+            what: hist.last().cloned().unwrap_or_default(),
+        });
+        if kind == StepKind::Close {
+            break;
+        }
+    }
+    hooks::WAL_MAX_LOG_SIZE.store(0, Ordering::SeqCst);
+    hooks::RECORD_EVENTS.store(false, Ordering::SeqCst);
+    drop(db);
+    hooks::take_events();
+    let _ = std::fs::remove_dir_all(&base);
+    if !ok {
+        return None;
+    }
+    Some(Recorded { instants, recs, hist, mode })
+}
+
+/// A crash image: for every log file present a prefix length; which checkpoint.meta bytes.
+#[derive(Clone, Debug)]
+struct Image {
+    instant: usize,
+    cuts: BTreeMap<u64, u64>,
+    meta: Option<Vec<u8>>,
+    /// (file, byte offset, bit) flipped after cutting
+    flip: Option<(u64, u64, u8)>,
+    tmp: Option<Vec<u8>>,
+    kind: &'static str,
+}
+
+fn images_for(rec: &Recorded, k: usize, r: &mut Rng, budget: usize) -> Vec<Image> {
+    let inst = &rec.instants[k];
+    let mut out = Vec::new();
+    let files: Vec<(u64, u64)> = inst.dir.iter().filter_map(|(n, b)| seq_of(n).map(|s| (s, b.len() as u64))).collect();
+    let full: BTreeMap<u64, u64> = files.iter().copied().collect();
+    let meta_now = inst.dir.get("checkpoint.meta").cloned();
+    let meta_prev = if k > 0 { rec.instants[k - 1].dir.get("checkpoint.meta").cloned() } else { None };
+    // 1. nothing lost beyond what was never written
+    out.push(Image { instant: k, cuts: full.clone(), meta: meta_now.clone(), flip: None, tmp: None, kind: "all_written" });
+    // 2. everything unsynced lost, per file independently
+    let synced_cut: BTreeMap<u64, u64> = files.iter().map(|(s, len)| (*s, inst.synced.get(s).copied().unwrap_or(0).min(*len))).collect();
+    out.push(Image { instant: k, cuts: synced_cut.clone(), meta: meta_now.clone(), flip: None, tmp: None, kind: "only_synced" });
+    // 3. each file cut alone at its synced length (gap shapes), others full
+    for (s, _) in &files {
+        if synced_cut[s] < full[s] {
+            let mut c = full.clone();
+            c.insert(*s, synced_cut[s]);
+            out.push(Image { instant: k, cuts: c, meta: meta_now.clone(), flip: None, tmp: None, kind: "one_file_unsynced_lost" });
+        }
+    }
+    // 4. cuts inside / at the boundaries of the last records of each file (torn prefix, payload, crc)
+    for (s, len) in &files {
+        let lo = synced_cut[s];
+        let rs: Vec<&RecAt> = rec.recs[..inst.n_recs].iter().filter(|x| x.file == *s && x.end > lo && x.end <= *len).collect();
+        for x in rs.iter().rev().take(3) {
+            let mut offs = vec![x.start, x.start + 1, x.start + 3, x.start + 4, x.start + 5, x.end - 5, x.end - 4, x.end - 1];
+            if x.end - x.start > 12 {
+                offs.push((x.start + x.end) / 2);
+            }
+            for o in offs {
+                if o >= lo && o < *len && o >= x.start && o < x.end {
+                    let mut c = full.clone();
+                    c.insert(*s, o);
+                    out.push(Image { instant: k, cuts: c, meta: meta_now.clone(), flip: None, tmp: None, kind: if o == x.start { "record_boundary" } else { "torn_record" } });
+                }
+            }
+        }
+    }
+    // 5. checkpoint metadata: old content with new logs, torn tmp file present
+    if meta_now != meta_prev {
+        out.push(Image { instant: k, cuts: full.clone(), meta: meta_prev.clone(), flip: None, tmp: meta_now.clone(), kind: "meta_old_tmp_complete" });
+        if let Some(b) = &meta_now {
+            out.push(Image { instant: k, cuts: full.clone(), meta: meta_prev.clone(), flip: None, tmp: Some(b[..b.len() / 2].to_vec()), kind: "meta_old_tmp_torn" });
+        }
+    }
+    // 6. a freshly rotated (empty) file missing
+    if let Some((s, 0)) = files.last() {
+        let mut c = full.clone();
+        c.remove(s);
+        out.push(Image { instant: k, cuts: c, meta: meta_now.clone(), flip: None, tmp: None, kind: "rotated_file_absent" });
+    }
+    // 7. single-bit flips inside records (payload, crc; length field handled in a child process elsewhere)
+    let all: Vec<&RecAt> = rec.recs[..inst.n_recs].iter().collect();
+    for _ in 0..4.min(all.len()) {
+        let x = all[r.below(all.len())];
+        if x.end - x.start < 9 || full.get(&x.file).copied().unwrap_or(0) < x.end {
+            continue;
+        }
+        // never touch the 4-byte length prefix here (an inflated length makes the engine
+        // allocate up to 4 GiB; that image class needs process isolation)
+        let off = x.start + 4 + r.below((x.end - x.start - 4) as usize) as u64;
+        out.push(Image { instant: k, cuts: full.clone(), meta: meta_now.clone(), flip: Some((x.file, off, r.below(8) as u8)), tmp: None, kind: "bit_flip" });
+    }
+    if out.len() > budget {
+        // keep the structural ones, sample the rest
+        let mut keep: Vec<Image> = out.iter().filter(|i| !matches!(i.kind, "torn_record" | "record_boundary")).cloned().collect();
+        let mut rest: Vec<Image> = out.into_iter().filter(|i| matches!(i.kind, "torn_record" | "record_boundary")).collect();
+        r.shuffle(&mut rest);
+        rest.truncate(budget.saturating_sub(keep.len()));
+        keep.extend(rest);
+        return keep;
+    }
+    out
+}
+
+/// What the engine should recover from this image if it behaved as the open findings say.
+fn predict_image(rec: &Recorded, img: &Image, rules: Rules) -> Model {
+    let inst = &rec.instants[img.instant];
+    let mut files: BTreeMap<u64, Vec<Rec>> = BTreeMap::new();
+    for s in img.cuts.keys() {
+        files.insert(*s, Vec::new());
+    }
+    for x in &rec.recs[..inst.n_recs] {
+        let Some(cut) = img.cuts.get(&x.file) else { continue };
+        let v = files.get_mut(&x.file).unwrap();
+        if matches!(v.last(), Some(Rec::Torn)) {
+            continue;
+        }
+        let flipped = img.flip.is_some_and(|(f, o, _)| f == x.file && o >= x.start && o < x.end);
+        if x.end <= *cut && !flipped {
+            v.push(x.rec.clone());
+        } else if x.start + 4 <= *cut || flipped {
+            // the length prefix is there but the record is incomplete / corrupt: an error
+            v.push(Rec::Torn);
+        } else {
+            // fewer than 4 bytes of the length prefix: the engine takes it as end of file
+            v.push(Rec::Torn);
+        }
+    }
+    // checkpoint metadata: which sequence does it name?
+    let ckpt = img.meta.as_ref().and_then(|b| decode_meta_seq(b));
+    c05::recover_sim(&files, ckpt, rules)
+}
+
+/// bincode standard config of CheckpointMetadata { epoch: u64, log_sequence: u64, .. }: two varints
+fn decode_meta_seq(b: &[u8]) -> Option<u64> {
+    fn varint(b: &[u8], pos: &mut usize) -> Option<u64> {
+        let first = *b.get(*pos)?;
+        *pos += 1;
+        match first {
+            0..=250 => Some(u64::from(first)),
+            251 => {
+                let v = u16::from_le_bytes(b.get(*pos..*pos + 2)?.try_into().ok()?);
+                *pos += 2;
+                Some(u64::from(v))
+            }
+            252 => {
+                let v = u32::from_le_bytes(b.get(*pos..*pos + 4)?.try_into().ok()?);
+                *pos += 4;
+                Some(u64::from(v))
+            }
+            253 => {
+                let v = u64::from_le_bytes(b.get(*pos..*pos + 8)?.try_into().ok()?);
+                *pos += 8;
+                Some(v)
+            }
+            _ => None,
+        }
+    }
+    let mut pos = 0;
+    let _epoch = varint(b, &mut pos)?;
+    varint(b, &mut pos)
+}
+
+fn materialise(rec: &Recorded, img: &Image, dir: &Path) {
+    let wal = dir.join("db").join("wal");
+    let _ = std::fs::create_dir_all(&wal);
+    let inst = &rec.instants[img.instant];
+    for (s, cut) in &img.cuts {
+        let name = format!("wal_{s:08}.log");
+        let mut b = inst.dir.get(&name).cloned().unwrap_or_default();
+        b.truncate(*cut as usize);
+        if let Some((f, off, bit)) = img.flip {
+            if f == *s && (off as usize) < b.len() {
+                b[off as usize] ^= 1 << bit;
+            }
+        }
+        let _ = std::fs::write(wal.join(name), b);
+    }
+    if let Some(m) = &img.meta {
+        let _ = std::fs::write(wal.join("checkpoint.meta"), m);
+    }
+    if let Some(t) = &img.tmp {
+        let _ = std::fs::write(wal.join("checkpoint.meta.tmp"), t);
+    }
+}
+
+fn run_history(rep: &mut Report, rules: Rules, seed: u64, case: u64, steps: usize, budget: usize) {
+    let Some(rec) = record(seed, case, steps) else {
+        rep.count("histories_abandoned_record_count_unexpected", 1);
+        return;
+    };
+    let mut r = Rng::new(seed, "C06.img", case);
+    rep.count("histories", 1);
+    rep.count(&format!("histories.mode.{}", c05::mode_name(&rec.mode)), 1);
+    let mut nontrivial_images = 0;
+    for k in 0..rec.instants.len() {
+        let imgs = images_for(&rec, k, &mut r, budget);
+        for img in imgs {
+            rep.eval();
+            rep.count(&format!("images.{}", img.kind), 1);
+            let dir = scratch_dir("c06img");
+            materialise(&rec, &img, &dir);
+            let inst = &rec.instants[k];
+            let detail = |extra: serde_json::Value| {
+                json!({"history": rec.hist, "crash_after_step": k, "step": inst.what, "image": format!("{:?}", img.kind), "cuts": img.cuts, "flip": format!("{:?}", img.flip), "extra": extra})
+            };
+            match c05::open(&dir.join("db"), rec.mode.clone()) {
+                Err(e) => {
+                    let sig = format!("crash:open_failed|{}|{}", img.kind, e.split(':').next().unwrap_or(""));
+                    rep.deviation(&sig, detail(json!({"error": e})));
+                }
+                Ok(db) => {
+                    let obs = c05::dump(&db);
+                    // spec: some prefix state between the last durability point and the crash;
+                    // for corruption images any prefix state at all
+                    let lo = if img.flip.is_some() { 0 } else { inst.durable_step };
+                    let in_spec = (lo..=k).any(|j| c05::diff_kind(&obs, &rec.instants[j].spec).is_none());
+                    let dev = predict_image(&rec, &img, rules);
+                    let as_rules = c05::diff_kind(&obs, &dev).is_none();
+                    if in_spec {
+                        if !as_rules {
+                            rep.count("images_better_than_rules_predict", 1);
+                        }
+                    } else if as_rules {
+                        // explained by open findings; name the most specific one
+                        let older_prefix = (0..lo).any(|j| c05::diff_kind(&obs, &rec.instants[j].spec).is_none());
+                        let id = if older_prefix { "C06-V1" } else { "C06-V4" };
+                        rep.known_rule(id, &format!("{} after '{}'", img.kind, inst.what.split('(').next().unwrap_or("")));
+                    } else {
+                        let (kd, d) = c05::diff_kind(&obs, &dev).unwrap();
+                        rep.deviation(&format!("crash:{}|vs_rules:{kd}", img.kind), detail(json!({"vs_known_rules": d})));
+                    }
+                    // continuation: a recovered database keeps what is written afterwards
+                    if r.chance(0.25) {
+                        rep.count("continuations", 1);
+                        let before = c05::dump(&db);
+                        let n1 = db.create_node_with_props(&["Z"], [("z", grafeo_common::types::Value::Int64(k as i64))]).as_u64();
+                        let n2 = db.create_node(&["Z"]).as_u64();
+                        if before.nodes.contains_key(&n1) || before.nodes.contains_key(&n2) || n1 == n2 {
+                            rep.deviation("continue:id_collision_after_recovery", detail(json!({"n1": n1, "n2": n2})));
+                        }
+                        let _ = db.close();
+                        drop(db);
+                        match c05::open(&dir.join("db"), rec.mode.clone()) {
+                            Err(e) => rep.deviation(&format!("continue:open_failed|{}", e.split(':').next().unwrap_or("")), detail(json!({"error": e}))),
+                            Ok(db2) => {
+                                let after = c05::dump(&db2);
+                                let kept = after.nodes.contains_key(&n1) && after.nodes.contains_key(&n2);
+                                if !kept {
+                                    // known: appended after a torn tail => unreadable (V2); or the
+                                    // checkpoint/rotation skip (C05-U4) when close rotated
+                                    let torn = img.kind == "torn_record" || img.kind == "bit_flip";
+                                    if torn && rules_v2(rep) {
+                                        rep.known_rule("C06-V2", &format!("continuation after {}", img.kind));
+                                    } else {
+                                        rep.deviation(&format!("continue:post_recovery_writes_lost|{}", img.kind), detail(json!({"n1": n1, "n2": n2})));
+                                    }
+                                }
+                                drop(db2);
+                            }
+                        }
+                    }
+                }
+            }
+            if matches!(img.kind, "torn_record" | "meta_old_tmp_complete" | "meta_old_tmp_torn" | "one_file_unsynced_lost" | "bit_flip") {
+                nontrivial_images += 1;
+                rep.nontrivial(hash_str(&format!("{case}/{k}/{:?}/{:?}/{}", img.cuts, img.flip, img.kind)));
+            }
+            let _ = std::fs::remove_dir_all(&dir);
+        }
+    }
+    if case < 2 {
+        rep.sample(json!({"case": case, "history": rec.hist, "instants": rec.instants.len(), "records": rec.recs.len(), "nontrivial_images": nontrivial_images,
+            "record_layout": rec.recs.iter().take(6).map(|x| format!("file {} bytes {}..{} {:?}", x.file, x.start, x.end, std::mem::discriminant(&x.rec))).collect::<Vec<_>>()}));
+    }
+}
+
+fn rules_v2(rep: &Report) -> bool {
+    rep.findings.rule_open("C06-V2")
+}
+
+pub fn run(tier: Tier, seed: u64) -> ! {
+    let mut rep = Report::new("C06", tier, seed, "fault_enumeration");
+    rep.rule = "per history (direct-API mutations, checkpoints, rotations incl. size-triggered, syncs, optional close; every durability mode) the WAL directory bytes, per-file fsync coverage (wal.sync hook events) and the reference state are recorded after every step; crash images per instant: all written bytes, only synced bytes, each file alone cut to its synced length, cuts at and inside the last three records of every file (torn length prefix / payload / checksum), old checkpoint.meta with complete or torn .tmp, freshly rotated file absent, single-bit flips in record payload/checksum. Each image is opened with the real engine: open must succeed, the dump must be a prefix state no older than the last sync/checkpoint/close (any prefix for corruption), and a quarter of the images are continued (write, close, reopen: the new writes must be there, ids must not collide). non-trivial image = cut strictly inside a record, metadata mid-update, per-file loss, or bit flip; distinct by (history, instant, cuts, flip)".into();
+    let rules = Rules::from_findings(&rep.findings);
+    let n = tier.pick(12, 1200);
+    for case in 0..n {
+        run_history(&mut rep, rules, seed, case, tier.pick(12, 30), tier.pick(24, 200));
+    }
+    rep.assumptions = vec![
+        "crash model: per-file prefix between fsynced and written length + rename atomicity of checkpoint.meta; reordering of unsynced writes inside a file and directory-entry durability are not modelled".into(),
+        "bit flips in the 4-byte length prefix are excluded here (the engine trusts the length up to 4 GiB); they need process isolation".into(),
+        "mutating session statements are not part of these histories (C05-U1: they are not logged at all)".into(),
+    ];
+    rep.finish()
 }
